@@ -474,7 +474,19 @@ func scenC05(g *Gen, dir string) ([]*Op, func(e *Env, i int, op *Op, obs []strin
 	}
 	nsig := uint32(len(gs))
 	total := int64(nobj) + 6
-	switch k := r.Intn(11); k {
+	switch k := r.Intn(12); k {
+	case 11:
+		// a byte-for-byte copy of one member's descriptor over another member's slot: the group
+		// keeps its size and every in-use ID is a signed ID, but a signed object is gone
+		edit = "overwrite a member's slot with a copy of another member's slot"
+		if len(groups[gid]) < 2 {
+			edit = "delete the only object of a signed group"
+			ops = append(ops, &Op{Kind: "del", Sel: Sel{Kind: "id", N: int64(groups[gid][0])}, T: TOpt{Kind: "det"}})
+			break
+		}
+		a := r.Intn(len(groups[gid]))
+		b := (a + 1 + r.Intn(len(groups[gid])-1)) % len(groups[gid])
+		ops = append(ops, &Op{Kind: "patch", CopySlot: []int{int(groups[gid][a]) - 1, int(groups[gid][b]) - 1}})
 	case 0:
 		edit = "add unsigned object to a signed group"
 		ops = append(ops, &Op{Kind: "add", T: TOpt{Kind: "det"}, DI: DI{DT: 0x4007, Fail: -1, Data: DataSpec{Lit: r.Bytes(4)}, Opts: []DIOpt{{Kind: "group", N: gid}}}})
@@ -1304,6 +1316,13 @@ func runInteg(prop, dir string, seed uint64) (*Case, []*Violation, map[string]in
 	var vs []*Violation
 	for i, op := range ops {
 		cp := *op
+		if cp.Kind == "patch" && len(cp.Sites) == 0 && len(cp.CopySlot) == 2 && e.f != nil {
+			b := e.storeBytes()
+			from, to := 4096+585*cp.CopySlot[0], 4096+585*cp.CopySlot[1]
+			if from+585 <= len(b) && to+585 <= len(b) {
+				cp.Sites = []PatchSite{{Off: int64(to), B: append([]byte(nil), b[from:from+585]...)}}
+			}
+		}
 		if cp.Kind == "patch" && len(cp.Sites) == 0 && e.f != nil {
 			fillPatch(g, &cp, e.storeBytes())
 		}
